@@ -629,7 +629,7 @@ func historyScenario(x *explore.X, n int) {
 
 func TestC05(t *testing.T) {
 	s := explore.NewSuite(t, "C05", "exploration",
-		"configuration = upstream(21: none, static http/https/socks5, PAC scripts returning each result string of the alphabet incl. errors) x direct-domains(5) x proxy-localhost(3) x connect-to rule list(9, incl. chained/swapped rules) x first connection attempt {succeeds, is refused and retried} x target(8: names, explicit port, localhost, IPv6 literal, loopback IP, upper-case and trailing-dot spellings) x kind(plain HTTP, CONNECT, inside MITM); deviation-bounded exploration (D=3 quick, 4 thorough) plus the full product upstream x direct-domains x localhost mode x target x kind (thorough: all 21 upstream selections, quick: 3 of them) and connect-to x upstream x target x kind (both tiers); 108 endpoints listen on the in-memory network (one of them is the proxy named by HTTP_PROXY / HTTPS_PROXY / ALL_PROXY in the process environment, which must never be used), the reference expectRoute names the one that must be dialled and checkHop verifies what it received first (request line form, CONNECT authority, SOCKS5 target, TLS hello); every other endpoint must stay untouched; plus (history) ONE proxy with a PAC script that answers by URL (port, path) and host, and EVERY sequence of 2 (quick) / 4 (thorough) requests out of 9 (absolute-form and origin-form GET, CONNECT, an intercepted session with a request inside, same host with different ports/paths, another host, a host for which the script answers an unsupported proxy type): each request must be routed by its own URL whatever was requested before; non-trivial = route compared")
+		"configuration = upstream(21: none, static http/https/socks5, PAC scripts returning each result string of the alphabet incl. errors) x direct-domains(5) x proxy-localhost(3) x connect-to rule list(9, incl. chained/swapped rules) x first connection attempt {succeeds, is refused and retried} x target(8: names, explicit port, localhost, IPv6 literal, loopback IP, upper-case and trailing-dot spellings) x kind(plain HTTP, CONNECT, inside MITM); deviation-bounded exploration (D=3 quick, 4 thorough) plus the full product upstream x direct-domains x localhost mode x target x kind (thorough: all 21 upstream selections, quick: 3 of them) and connect-to x upstream x target x kind (both tiers); 108 endpoints listen on the in-memory network (one of them is the proxy named by HTTP_PROXY / HTTPS_PROXY / ALL_PROXY in the process environment, which must never be used), the reference expectRoute names the one that must be dialled and checkHop verifies what it received first (request line form, CONNECT authority, SOCKS5 target, TLS hello); every other endpoint must stay untouched; plus (history) ONE proxy with a PAC script that answers by URL (port, path) and host, and EVERY sequence of 2 (quick) / 4 (thorough) requests out of 9 (absolute-form and origin-form GET, CONNECT, an intercepted session with a request inside, same host with different ports/paths, another host, a host for which the script answers an unsupported proxy type): each request must be routed by its own URL whatever was requested before; non-trivial = route compared; (round 9) a --connect-to rule written with upper-case letters applies to a hop written the same way")
 	s.Assume = []string{"simnet owns every dial of the proxy", "PAC scripts are evaluated by the real pac package (goja)", "the address dialled is observed after the real DialRedirectFunc (connect-to) ran inside forwarder.Dialer"}
 	s.Add(explore.Scenario{Name: "bounded", Remote: true, MaxDev: map[string]int{"quick": 3, "thorough": 4},
 		Run: func(x *explore.X) { world.Run(t, x, func() { scenario(x, 0) }) }})
